@@ -28,7 +28,8 @@ def rand_name(rng, used):
 
 def pick_dims(rng, tsz, big):
     """dims whose byte size sits on an interesting boundary"""
-    target = rng.choice([1, 2, 7, 32, 245, 246, 247, 1000, 4095, 4096, 4097, 8191, 8193] +
+    # 65531 / 65532 / 65536: the largest payload HDF5 can keep in a compact layout message, one more, and 64 KiB
+    target = rng.choice([1, 2, 7, 32, 245, 246, 247, 1000, 4095, 4096, 4097, 8191, 8193] + ([rng.choice([65531, 65532, 65535, 65536])] if rng.random() < 0.3 else []) +
                         ([99999, 100000, 100001, 200003] if big else []) + [rng.randint(1, 3000)])
     n = max(1, target // tsz + rng.choice([0, 0, 1]))
     r = rng.random()
